@@ -22,7 +22,7 @@ RULE = ('file names = product of segment kinds {file names in root, subdir, ., .
         'from a path wildcard. Non-trivial = the name contains a dot-dot, an absolute prefix, a backslash or a sibling name; '
         'distinct = distinct (root spelling, filename).')
 PYOPT = {'quick': 1, 'thorough': 1}     # one unit of every kind is also served by an interpreter started with -O (assert statements compiled out)
-REQUIRED = ['units_run_under_python_-O', 'refused_names_asked_again_conditionally', 'calls_in_a_walk_over_root_spellings', 'calls_with_a_root_that_does_not_exist', 'names_that_are_not_text', 'names_of_more_than_64_segments', 'relative_root_after_chdir', 'head_requests', 'probes_after_serving_another_root', 'served_200', 'denied_403', 'missing_404', 'opens_observed', 'names_with_dotdot', 'names_with_backslash',
+REQUIRED = ['units_run_under_python_-O', 'relative_root_at_or_above_the_working_directory', 'refused_names_asked_again_conditionally', 'calls_in_a_walk_over_root_spellings', 'calls_with_a_root_that_does_not_exist', 'names_that_are_not_text', 'names_of_more_than_64_segments', 'relative_root_after_chdir', 'head_requests', 'probes_after_serving_another_root', 'served_200', 'denied_403', 'missing_404', 'opens_observed', 'names_with_dotdot', 'names_with_backslash',
             'names_absolute', 'names_sibling_prefix', 'served_content_compared', 'via_wsgi']
 EXHAUSTIVE = {'quick': False, 'thorough': False,
               'quick_note': 'the product units enumerate the name product for <=2 segments completely', 'thorough_note': 'the product units enumerate the name product for <=3 segments completely'}
@@ -91,6 +91,13 @@ def names(maxseg, base):
         for filler in ('./', 'sub/../', '//', 'sub/deep/../../', 'nope/../'):
             for tail in ('../top-secret.txt', '../www2/a.txt', '../www-private/secret.txt', 'a.txt', 'sub/b.txt', '../www/a.txt', '..'):
                 yield filler * count + tail
+    # one segment whose name holds backslashes (a literal name on this platform) followed by steps up: the steps are counted from
+    # the one segment, not from what the name would be if its backslashes were separators
+    for seg in ('a\\b', 'x\\y\\z', 'sub\\deep', 'back\\slash.txt', '\\a', 'a\\', 'sub\\..\\..'):
+        for ups in (1, 2, 3):
+            for tail in ('top-secret.txt', 'www2/a.txt', 'www-private/secret.txt', 'www/a.txt', 'a.txt', 'other/a.txt'):
+                for lead in ('', '/', 'sub/'):
+                    yield lead + seg + '/..' * ups + '/' + tail
     # absolute prefixes followed by 0..2 segments
     for pre in abs_prefixes:
         for n in range(0, min(maxseg, 2) + 1):
@@ -313,6 +320,18 @@ def history_unit(ctx, unit):
                         check_call(ctx, static_file, audit, base, files, real_1, r1, r1, name, wit)
                         check_head(ctx, static_file, base, files, real_1, r1, r1, name, wit)
                         ctx.count('relative_root_after_chdir')
+        # relative roots that are the working directory itself or lie above it ('.', './', '', '..'), the server standing inside the tree
+        for here, rel_roots in ((os.path.join(base, 'www'), ['.', './', '', './.', 'sub/..', '../www']), (os.path.join(base, 'www', 'sub'), ['..', '../', '../.', '../../www', 'deep/../..']),
+                                (os.path.join(base, 'www', 'sub', 'deep'), ['../..', '../../', '..'])):
+            os.chdir(here)
+            for rr in rel_roots:
+                real = os.path.realpath(rr) if rr else os.path.realpath('.')
+                for name in ['a.txt', 'sub/b.txt', 'b.txt', 'c.bin', 'index.html', '../top-secret.txt', '../../top-secret.txt', '../www2/a.txt', '../../www2/a.txt', '../a.txt', '../../a.txt',
+                             '../www-private/secret.txt', '../../../top-secret.txt', '..', '../..', '/../top-secret.txt', 'sub/../../top-secret.txt', '../www/a.txt', '../other/a.txt']:
+                    ctx.case(('relroot', here.replace(base, ''), rr, name), nontrivial=True)
+                    wit = {'unit': {'kind': 'note', 'cwd': here.replace(base, '<BASE>'), 'root': rr, 'name': name}}
+                    check_call(ctx, static_file, audit, base, files, real, rr or "''", rr, name, wit)
+                    ctx.count('relative_root_at_or_above_the_working_directory')
         # a long walk over many roots in many absolute spellings (two spellings of one directory are two strings), some of
         # them directories that do not exist: the root of a call is the one given to that call, whatever was served before
         os.chdir(base)
